@@ -204,8 +204,14 @@ func RenderToFile(filepath string, f generator.GoFile) error {
 }
 
 func WriteToFile(bs []byte, filepath string) error {
+	// format first: a file that does not parse is an error of the generation, and nothing is written for it
+	bs, err := imports.Process("", bs, nil)
+	if err != nil {
+		return fmt.Errorf("error on format go source (%s): %w", filepath, err)
+	}
+
 	dirpath := path.Dir(filepath)
-	err := os.MkdirAll(dirpath, os.ModePerm)
+	err = os.MkdirAll(dirpath, os.ModePerm)
 	if err != nil {
 		return fmt.Errorf("mkdir all: %w", err)
 	}
@@ -213,15 +219,6 @@ func WriteToFile(bs []byte, filepath string) error {
 	f, err := os.OpenFile(filepath, os.O_CREATE|os.O_WRONLY|os.O_TRUNC, os.ModePerm)
 	if err != nil {
 		return fmt.Errorf("error on open file: %w", err)
-	}
-
-	importedBs, err := imports.Process("", bs, nil)
-	// bs, err := format.Source(bb.Bytes())
-	if err != nil {
-		// return fmt.Errorf("error on format go source: %w", err)
-		log.Printf("Error on format go source (%s): %v", filepath, err)
-	} else {
-		bs = importedBs
 	}
 
 	_, err = f.Write(bs)
